@@ -6,6 +6,8 @@ CONSTANTS
   Faults <- MCFaults
   StopAt <- NoStop
   CmdBudget = 0
+  CmdKinds = {"hold", "release", "holdpt", "relall", "stoppt", "stopnow"}
+  SetOuts = {}
 \* EXPECTED TO FAIL: the known finding C20_NoDuplicateSubmitNum_UncommittedLaunch - a crash after a job was
 \* prepared and launched but before the next commit makes the restarted scheduler use the same submit number again
 INVARIANT C02_NoDuplicateSubmitNum
